@@ -404,9 +404,7 @@ func (r *checkRun) report() int {
 				violations++
 				lines = append(lines, r.violation(o, "vacuous precondition: requires clauses are contradictory", nil))
 			} else if res.Status != "sat" {
-				if m, _ := r.retryMacro(o); m == "" {
-					coverUndecided = append(coverUndecided, o.Name)
-				}
+				coverUndecided = append(coverUndecided, o.Name)
 			}
 			continue
 		}
